@@ -57,6 +57,17 @@ Definition c01_incoherent_lib_refeed_refuted : Prop :=
     c01_discipline_b (LExcl r0) t = true /\ c01_error_b (c_fail_at cfg) 0 t = true /\
     c01_refeed_b [] h t = false.
 
+(* Witness 3: the same in DISCOVERY mode (no configured LIB, hold-until-LIB): the LIB is discovered from a block
+   that declares its own height; then as in witness 1. *)
+Definition c01_wild_discovery_refeed_refuted : Prop :=
+  exists cfg h,
+    c_hold cfg = true /\ c_incl cfg = false /\ c_fail_at cfg = None /\
+    f_new (c_filter cfg) = true /\ f_undo (c_filter cfg) = true /\ wf_b h = true /\
+    let t := fk_run cfg (fs_init LNone) h in
+    Forall (fun x => snd x = ROk) t /\ length t = length h /\
+    c01_discipline_b LNone t = true /\ c01_error_b (c_fail_at cfg) 0 t = true /\
+    c01_refeed_b [] h t = false.
+
 (* ================================================================ what DOES hold for arbitrary declarations *)
 
 (* the same configuration with a handler that never fails *)
